@@ -40,7 +40,8 @@ fn key_timeline(k: K) -> Option<CTimeline> {
 
 fn chain_maps() -> Vec<Option<Vec<(K, K)>>> {
     // the last map is built with AnimationChain::reset_after(B) = {B -> K::default() = A}
-    vec![None, Some(vec![(K::A, K::B)]), Some(vec![(K::A, K::B), (K::B, K::A)]), Some(vec![(K::A, K::N)]), Some(vec![(K::B, K::C)]), Some(vec![(K::B, K::A)])]
+    // (the self-map A->A sits before the last entry, whose position selects reset_after)
+    vec![None, Some(vec![(K::A, K::B)]), Some(vec![(K::A, K::B), (K::B, K::A)]), Some(vec![(K::A, K::N)]), Some(vec![(K::B, K::C)]), Some(vec![(K::A, K::A), (K::B, K::B)]), Some(vec![(K::B, K::A)])]
 }
 
 fn chain_lookup(m: &Option<Vec<(K, K)>>, k: K) -> Option<K> {
@@ -535,7 +536,7 @@ pub fn run(run: Run) -> ! {
     cov.insert("traces_validated_against_impl".into(), json!(acc.apps));
     cov.insert("evaluations".into(), json!(acc.rule_checks));
     cov.insert("distinct_nontrivial".into(), json!(acc.switches + acc.chain_fires));
-    cov.insert("rule".into(), json!(format!("real headless bevy App (AnimationPlugin<C>, AnimationPlugin<Q>, register_animation_key::<C,K>, hand-driven Time): ALL {} frame-delta schedules of length {} over {{1/4, 8, 0}} s x ALL {} key-assignment histories (before each frame: nothing or key := A|B|C|N, including the current key) x 6 chain maps (none, A->B, A->B+B->A, A->N, B->C, reset_after(B)); initial key A (default) or B (builder) x {{one animated component, a second component Q with its own short animator}}; plus a deviation-bounded pass ({} schedules of {} frames, default delta 1/4, <= {} deviations) with <= 2 assignments; plus a disabled pass ({} Apps: all schedules x histories with <= 2 assignments x 4 windows of frames during which the governed animator is disabled: a key change made meanwhile re-targets and rewinds it at once and it plays once enabled; nothing else moves while disabled); plus a mirror pass ({} Apps: all schedules of length {}, entities whose OTHER animator is reset before every frame and therefore reports a state change in every frame, once with C governed / Q foreign and once with Q governed / C foreign, so that both orders of the two events occur whatever order the animate systems have in this process; S5/S6 only). Rules: S1 component unchanged in the frame a key change is acted on; S2 animation restarted from position 0 on the new key's timeline, thereafter the component equals that timeline started from the values at the switch; S3 key without timeline: state None, component frozen; S4 re-assigning the current key restarts nothing; S5 governed animator ended on k in frame f and chain(k)=k' and the user did not re-assign => key is k' in frame f+1; S6 the key changes only by assignment or S5 (the Ended must come from the governed animator and be applied to the key that ended). non-trivial = key changes acted on + chain moves", nsched, depth, hs.len(), dev_apps, horizon, k, dis_apps, mir_apps, mdepth)));
+    cov.insert("rule".into(), json!(format!("real headless bevy App (AnimationPlugin<C>, AnimationPlugin<Q>, register_animation_key::<C,K>, hand-driven Time): ALL {} frame-delta schedules of length {} over {{1/4, 8, 0}} s x ALL {} key-assignment histories (before each frame: nothing or key := A|B|C|N, including the current key) x 7 chain maps (none, A->B, A->B+B->A, A->N, B->C, the self-maps A->A+B->B, reset_after(B)); initial key A (default) or B (builder) x {{one animated component, a second component Q with its own short animator}}; plus a deviation-bounded pass ({} schedules of {} frames, default delta 1/4, <= {} deviations) with <= 2 assignments; plus a disabled pass ({} Apps: all schedules x histories with <= 2 assignments x 4 windows of frames during which the governed animator is disabled: a key change made meanwhile re-targets and rewinds it at once and it plays once enabled; nothing else moves while disabled); plus a mirror pass ({} Apps: all schedules of length {}, entities whose OTHER animator is reset before every frame and therefore reports a state change in every frame, once with C governed / Q foreign and once with Q governed / C foreign, so that both orders of the two events occur whatever order the animate systems have in this process; S5/S6 only). Rules: S1 component unchanged in the frame a key change is acted on; S2 animation restarted from position 0 on the new key's timeline, thereafter the component equals that timeline started from the values at the switch; S3 key without timeline: state None, component frozen; S4 re-assigning the current key restarts nothing; S5 governed animator ended on k in frame f and chain(k)=k' and the user did not re-assign => key is k' in frame f+1; S6 the key changes only by assignment or S5 (the Ended must come from the governed animator and be applied to the key that ended). non-trivial = key changes acted on + chain moves", nsched, depth, hs.len(), dev_apps, horizon, k, dis_apps, mir_apps, mdepth)));
     cov.insert("exhaustive".into(), json!(true));
     cov.insert("apps".into(), json!(acc.apps));
     cov.insert("system_order_in_this_process".into(), json!(if chain_first { "chain_animations, select_animation, animate" } else { "select_animation, chain_animations, animate" }));
